@@ -177,4 +177,7 @@ CORPUS = [
       "        elapsed = t - self.t_last_mag\n        if not self.initialized or elapsed < (\n            self.dt_min_mag.get() - self.time_eps\n        ):\n            return\n", ["C20", "C12"],
       "elapsed time in a local, stamp still written after the gate"),
     B("b25-mrp-log-local-norm", SO3, "        theta_sq = ca.dot(r, r)\n        A = SQUARED_SERIES[\"4 atan(x)/x\"](theta_sq)", "        n2 = ca.dot(r, r)\n        A = SQUARED_SERIES[\"4 atan(x)/x\"](n2)", ["C03"]),
+    M("m-imu-skip-small-dt", EST, "        if dt <= 0:\n            return\n", "        if dt <= self.time_eps:\n            return\n", ["C12"], "IMU samples with 0 < dt <= 1 ms are dropped"),
+    B("b26-imu-skip-small-dt-c20", EST, "        if dt <= 0:\n            return\n", "        if dt <= self.time_eps:\n            return\n", ["C20"],
+      "the same edit is benign for C20: the step handed to predict is still positive (an earlier version of the rule raised a false alarm here)"),
 ]
